@@ -487,6 +487,8 @@ pub fn run_families(opts: &RunOpts, families: Vec<Family>) -> Summary {
                         }
                         off -= f.count;
                     }
+                    // developer aid: HCSIM_OFFSET shifts the run index within each family
+                    let off = off + std::env::var("HCSIM_OFFSET").ok().and_then(|s| s.parse::<u64>().ok()).unwrap_or(0);
                     let mut case = (fam.make)(opts.seed, off);
                     case.prop = opts.prop.clone();
                     case.family = fam.name.to_string();
